@@ -97,6 +97,16 @@ def run(ctx):
 
     # ------------------------------------------------------------------ R11.4
     r = ctx.rule("R11.4", "flags are independent: should_bail_out_for is an exhaustive match MemoryLimitExceeded->memory flag, ContentHandlerError->handler flag, ParsingAmbiguity->false; the flags are read nowhere else", "E-AST+E-MIR", floor=3)
+    # each flag travels unchanged from Settings to the TransformStream field that should_bail_out_for reads
+    for fn_, agg_, pairs in (("HtmlRewriter::new", "TransformStreamSettings", (("graceful_bail_out_on_memory_limit_exceeded", "settings.memory_settings.graceful_bail_out_on_memory_limit_exceeded"), ("graceful_bail_out_on_content_handler_error", "settings.graceful_bail_out_on_content_handler_error"))),
+                              ("TransformStream::new", "TransformStream", (("graceful_bail_out_on_memory_limit_exceeded", "settings.graceful_bail_out_on_memory_limit_exceeded"), ("graceful_bail_out_on_content_handler_error", "settings.graceful_bail_out_on_content_handler_error")))):
+        f_ = mir.fn(fn_)
+        ag_ = [st["rv"] for b in f_.blocks for st in b["stmts"] if st["k"] == "assign" and st["rv"]["k"] == "agg" and (st["rv"].get("name") or "").endswith("::" + agg_)]
+        d_ = dict(zip(ag_[0]["fields"], [f_.deep(o) for o in ag_[0]["ops"]])) if len(ag_) == 1 else {}
+        for fld_, want_ in pairs:
+            r.inst(fn_ + "|" + fld_, sample={"source": d_.get(fld_)})
+            if d_.get(fld_) != want_:
+                r.violate(fn_ + "|" + fld_, f"{fn_} fills {agg_}.{fld_} from `{d_.get(fld_)}` instead of `{want_}`: the two graceful bail-out flags are no longer independent (e.g. the memory flag alone would also recover content handler errors)", f_.loc())
     f = idx.one("should_bail_out_for", owner="TransformStream")
     table = {}
     for n in walk(f.node["body"]):
